@@ -6,53 +6,11 @@
     old balance plus [spec_delta], every hold the old hold minus the hold amounts of the filled
     parts, and the order store loses the fully filled orders and keeps the unfilled remainder. *)
 From Coq Require Import ZArith List Bool Lia ZifyBool PArith.
-From PV Require Import Exchange.Arith Exchange.Split Exchange.Fulfill Exchange.Settle
+From PV Require Import Exchange.Arith Exchange.Split Exchange.Fulfill Exchange.Settle Exchange.SettleSpec
   Proofs.ArithProofs Proofs.SplitProofs Proofs.FulfillProofs Proofs.FulfillSteps
   Proofs.FulfillShape Proofs.FulfillSums Proofs.SettleProofs.
 Import ListNotations.
 Open Scope Z_scope.
-
-(** ** The abstract specification *)
-
-(** One party of a settlement: what it receives, what it hands over, the fees it pays. *)
-Record party := { p_addr : addr; p_gets : coins; p_gives : coins; p_fees : coins }.
-
-(** A filled order as a party: the seller hands over the assets filled and receives the price
-    applied; the buyer receives the assets and hands over the price; both pay their fees. *)
-Definition party_of_fill (f : filled) : party :=
-  let o := fo_order f in
-  if o_ask o
-  then {| p_addr := o_owner o; p_gets := [(o_pd o, fo_price f)]; p_gives := [(o_ad o, o_assets o)]; p_fees := fo_fees f |}
-  else {| p_addr := o_owner o; p_gets := [(o_ad o, o_assets o)]; p_gives := [(o_pd o, fo_price f)]; p_fees := fo_fees f |}.
-
-Definition party_delta (p : party) (x : addr) (d : denom) : Z :=
-  if Pos.eqb x (p_addr p) then amount_of (p_gets p) d - amount_of (p_gives p) d - amount_of (p_fees p) d else 0.
-
-Definition fees_total (ps : list party) (d : denom) : Z := sumz (fun p => amount_of (p_fees p) d) ps.
-
-(** The exchange's share of the collected fees: per denom, [exchange_split] of the total, i.e.
-    the ceiling of total * split / 10000 ([exchange_split_ceiling] in Proofs/ArithProofs.v). *)
-Definition exchange_share (cfg : config) (ps : list party) (d : denom) : Z :=
-  exchange_split (fees_total ps d) (get_split cfg d).
-
-(** Change of the balance of address [x] in denom [d]. *)
-Definition spec_delta (cfg : config) (ps : list party) (x : addr) (d : denom) : Z :=
-  sumz (fun p => party_delta p x d) ps
-  + (if Pos.eqb x (c_market cfg) then fees_total ps d - exchange_share cfg ps d else 0)
-  + (if Pos.eqb x (c_feecol cfg) then exchange_share cfg ps d else 0).
-
-(** Hold released for address [x]: the hold amounts of the filled (parts of the) orders. *)
-Definition hold_released (fs : list filled) (x : addr) (d : denom) : Z :=
-  sumz (fun f => if Pos.eqb x (o_owner (fo_order f)) then amount_of (hold_amount (fo_order f)) d else 0) fs.
-
-(** The order store afterwards, as a lookup: fully filled orders are gone, the partially filled
-    one is replaced by what is left of it, everything else is untouched. *)
-Definition orders_after (os : list order) (full : list filled) (left : option order) (id : positive) : option order :=
-  if existsb (Pos.eqb id) (map (fun f => o_id (fo_order f)) full) then None
-  else match left with
-       | Some l => if Pos.eqb id (o_id l) then Some l else find_order os id
-       | None => find_order os id
-       end.
 
 (** ** Bank: additive effects *)
 Lemma aget_aadd m a d z x d' :
@@ -354,6 +312,31 @@ Proof.
     destruct (existsb _ _); [reflexivity|]. destruct (s_left s) as [l|]; [apply find_set|reflexivity].
 Qed.
 
+Definition store_ok (os : list order) : Prop := Forall (fun o => sorted (o_fees o)) os.
+
+Lemma set_order_ok os l : store_ok os -> sorted (o_fees l) -> store_ok (set_order os l).
+Proof.
+  unfold store_ok. induction 1 as [|x r Hx Hr IH]; intros Hl; cbn [set_order]; [constructor; [assumption|constructor]|].
+  destruct (Pos.eqb (o_id x) (o_id l)); constructor; auto.
+Qed.
+
+Lemma del_order_ok os i : store_ok os -> store_ok (del_order os i).
+Proof.
+  unfold store_ok, del_order. intros H. apply Forall_forall. intros o Ho. apply filter_In in Ho as [Ho _].
+  rewrite Forall_forall in H. apply H, Ho.
+Qed.
+
+Lemma close_orders_ok cfg st s st' :
+  close cfg st s = Ok st' -> store_ok (st_orders st) ->
+  match s_left s with Some l => sorted (o_fees l) | None => True end -> store_ok (st_orders st').
+Proof.
+  unfold close. intros H Hok Hl. inv_bind H. inv_bind H. inv_bind H. inversion H; subst; clear H. cbn [st_orders].
+  assert (H0 : store_ok (match s_left s with Some l => set_order (st_orders st) l | None => st_orders st end))
+    by (destruct (s_left s); [apply set_order_ok; assumption|assumption]).
+  revert H0. generalize (match s_left s with Some l => set_order (st_orders st) l | None => st_orders st end).
+  induction (s_full s) as [|f r IH]; intros os H0; cbn [fold_left]; [exact H0|]. apply IH, del_order_ok, H0.
+Qed.
+
 (** ** The requested orders *)
 Lemma find_order_some os id o : find_order os id = Some o -> o_id o = id /\ In o os.
 Proof.
@@ -414,7 +397,6 @@ Proof.
 Qed.
 
 (** ** SettleOrders refines the specification *)
-Definition store_ok (os : list order) : Prop := Forall (fun o => sorted (o_fees o)) os.
 
 Lemma settle_refine cfg st askids bidids e st' :
   store_ok (st_orders st) ->
@@ -431,7 +413,7 @@ Lemma settle_refine cfg st askids bidids e st' :
     (forall x d, aget (st_hold st') x d = aget (st_hold st) x d - hold_released (fills_of s) x d) /\
     (forall id, find_order (st_orders st') id = orders_after (st_orders st) (s_full s) (s_left s) id) /\
     (forall d, total (st_bal st') d = total (st_bal st) d) /\
-    match s_left s with Some l => sorted (o_fees l) | None => True end.
+    store_ok (st_orders st').
 Proof.
   intros Hok H.
   assert (Hv : valid_ids askids = true /\ valid_ids bidids = true /\ disjoint_ids askids bidids = true).
@@ -464,7 +446,7 @@ Proof.
   destruct (close_refine _ _ _ _ Hc Hts Hfs Hfp Hsfo) as (Hbal & Hhold & Hord).
   exists asks, bids, r, s. rewrite Hlk in Hb.
   split; [exact Ga|]. split; [exact Gb|]. split; [exact Hb|]. split; [exact Hsh|]. split; [exact Hfo|].
-  split; [exact He|]. split; [|split; [exact Hhold|split; [exact Hord|split; [|exact Hsl]]]].
+  split; [exact He|]. split; [|split; [exact Hhold|split; [exact Hord|split; [|exact (close_orders_ok _ _ _ _ Hc Hok Hsl)]]]].
   - intros x d. rewrite (Hbal x d). cbn zeta. unfold spec_delta, exchange_share.
     rewrite fees_total_fills, sumz_map, Hnet, Hfat, Hftot.
     rewrite (sumz_ext (fun f => party_delta (party_of_fill f) x d) (fun f => fill_move f x d - fill_fee f x d))
